@@ -53,6 +53,7 @@ package vm
 //@   ensures @C01 int.equal: op == code.OpEqual ==> err == nil && pushed1(vm) && topBool(vm, old(ival(left)) == old(ival(right)))
 //@   ensures @C01 int.notequal: op == code.OpNotEqual ==> err == nil && pushed1(vm) && topBool(vm, old(ival(left)) != old(ival(right)))
 //@   ensures @C01 int.badop: op != code.OpAdd && op != code.OpSub && op != code.OpMul && op != code.OpDiv && op != code.OpMod && op != code.OpPower && op != code.OpLess && op != code.OpLessEqual && op != code.OpGreater && op != code.OpGreaterEqual && op != code.OpEqual && op != code.OpNotEqual ==> err != nil && stackSame(vm)
+//@   ensures int.effect: (err == nil ==> pushed1(vm)) && (err != nil ==> stackSame(vm))
 //@   panics when op == code.OpMod && ival(right) == 0
 
 //@ func (vm *VM) evalFloatInfixExpression(op code.Opcode, left object.Object, right object.Object) (err error)
@@ -72,6 +73,7 @@ package vm
 //@   ensures @C01 ff.equal: op == code.OpEqual ==> err == nil && pushed1(vm) && topBool(vm, old(fval(left)) == old(fval(right)))
 //@   ensures @C01 ff.notequal: op == code.OpNotEqual ==> err == nil && pushed1(vm) && topBool(vm, old(fval(left)) != old(fval(right)))
 //@   ensures @C01 ff.badop: op != code.OpAdd && op != code.OpSub && op != code.OpMul && op != code.OpDiv && op != code.OpMod && op != code.OpPower && op != code.OpLess && op != code.OpLessEqual && op != code.OpGreater && op != code.OpGreaterEqual && op != code.OpEqual && op != code.OpNotEqual ==> err != nil && stackSame(vm)
+//@   ensures ff.effect: (err == nil ==> pushed1(vm)) && (err != nil ==> stackSame(vm))
 //@   panics when op == code.OpMod && f2i(fval(right)) == 0
 
 //@ func (vm *VM) evalFloatIntegerInfixExpression(op code.Opcode, left object.Object, right object.Object) (err error)
@@ -91,6 +93,7 @@ package vm
 //@   ensures @C01 fi.equal: op == code.OpEqual ==> err == nil && pushed1(vm) && topBool(vm, old(fval(left)) == old(i2f(ival(right))))
 //@   ensures @C01 fi.notequal: op == code.OpNotEqual ==> err == nil && pushed1(vm) && topBool(vm, old(fval(left)) != old(i2f(ival(right))))
 //@   ensures @C01 fi.badop: op != code.OpAdd && op != code.OpSub && op != code.OpMul && op != code.OpDiv && op != code.OpMod && op != code.OpPower && op != code.OpLess && op != code.OpLessEqual && op != code.OpGreater && op != code.OpGreaterEqual && op != code.OpEqual && op != code.OpNotEqual ==> err != nil && stackSame(vm)
+//@   ensures fi.effect: (err == nil ==> pushed1(vm)) && (err != nil ==> stackSame(vm))
 //@   panics when op == code.OpMod && f2i(i2f(ival(right))) == 0
 
 //@ func (vm *VM) evalIntegerFloatInfixExpression(op code.Opcode, left object.Object, right object.Object) (err error)
@@ -110,6 +113,7 @@ package vm
 //@   ensures @C01 if.equal: op == code.OpEqual ==> err == nil && pushed1(vm) && topBool(vm, old(i2f(ival(left))) == old(fval(right)))
 //@   ensures @C01 if.notequal: op == code.OpNotEqual ==> err == nil && pushed1(vm) && topBool(vm, old(i2f(ival(left))) != old(fval(right)))
 //@   ensures @C01 if.badop: op != code.OpAdd && op != code.OpSub && op != code.OpMul && op != code.OpDiv && op != code.OpMod && op != code.OpPower && op != code.OpLess && op != code.OpLessEqual && op != code.OpGreater && op != code.OpGreaterEqual && op != code.OpEqual && op != code.OpNotEqual ==> err != nil && stackSame(vm)
+//@   ensures if.effect: (err == nil ==> pushed1(vm)) && (err != nil ==> stackSame(vm))
 //@   panics when op == code.OpMod && f2i(fval(right)) == 0
 
 //@ func (vm *VM) evalStringInfixExpression(op code.Opcode, left object.Object, right object.Object) (err error)
@@ -124,6 +128,7 @@ package vm
 //@   ensures @C01 str.add: op == code.OpAdd ==> err == nil && pushed1(vm) && topStr(vm, old(sval(left)) + old(sval(right)))
 //@   ensures @C01 @C16 str.in: op == code.OpArrayIn ==> err == nil && pushed1(vm) && topBool(vm, strContains(old(sval(right)), old(sval(left))))
 //@   ensures @C01 str.badop: op != code.OpLess && op != code.OpLessEqual && op != code.OpGreater && op != code.OpGreaterEqual && op != code.OpEqual && op != code.OpNotEqual && op != code.OpAdd && op != code.OpArrayIn ==> err != nil && stackSame(vm)
+//@   ensures str.effect: (err == nil ==> pushed1(vm)) && (err != nil ==> stackSame(vm))
 //@   panics never
 //@ func (vm *VM) executeBinaryOperation(op code.Opcode) (err error)
 //@   requires vmOK(vm)
@@ -174,6 +179,7 @@ package vm
 //@   ensures @C01 bin.mismatch: old(depth(vm)) >= 2 && tag(T2(vm)) != tag(T1(vm)) && !(isNum(T2(vm)) && isNum(T1(vm))) && !(isStr(T2(vm)) && isRegexp(T1(vm))) && op != code.OpAnd && op != code.OpOr && op != code.OpArrayIn ==> err != nil
 //@   ensures @C01 bin.nonnum: old(depth(vm)) >= 2 && tag(T2(vm)) == tag(T1(vm)) && !isNum(T2(vm)) && !isStr(T2(vm)) && !isBool(T2(vm)) && op != code.OpAnd && op != code.OpOr && op != code.OpArrayIn && op != code.OpEqual && op != code.OpNotEqual ==> err != nil
 //@   ensures @C18 bin.underflow: old(depth(vm)) < 2 ==> err != nil
+//@   ensures @C18 bin.effect: old(depth(vm)) >= 2 && err == nil ==> replaced2(vm)
 //@   panics when depth(vm) >= 2 && ((isNum(TT2(vm)) && isNum(TT1(vm)) && op == code.OpMod && true && (isInt(TT2(vm)) && isInt(TT1(vm)) ? ival(TT1(vm)) == 0 : f2i(fl(TT1(vm))) == 0)) || (isStr(TT2(vm)) && isRegexp(TT1(vm)) && op != code.OpAnd && op != code.OpOr) || (op == code.OpArrayIn && isArray(TT1(vm)) && true && !(isNum(TT2(vm)) && isNum(TT1(vm))) && !(isStr(TT2(vm)) && isStr(TT1(vm)))))
 
 //@ func (vm *VM) evalBooleanInfixExpression(op code.Opcode, left object.Object, right object.Object) (err error)
@@ -181,6 +187,7 @@ package vm
 //@   modifies vm.stack.entries, vm.stack.entries[*]
 //@   ensures @C01 bool.equal: op == code.OpEqual ==> err == nil && pushed1(vm) && topBool(vm, old(bval(left)) == old(bval(right)))
 //@   ensures @C01 bool.notequal: op == code.OpNotEqual ==> err == nil && pushed1(vm) && topBool(vm, old(bval(left)) != old(bval(right)))
+//@   ensures bool.effect: (err == nil ==> pushed1(vm)) && (err != nil ==> stackSame(vm))
 //@   panics never
 
 //@ func (vm *VM) evalStringRegexpExpression(op code.Opcode, left object.Object, right object.Object) (err error)
@@ -188,6 +195,7 @@ package vm
 //@   modifies vm.stack.entries, vm.stack.entries[*]
 //@   ensures @C01 sr.type: (op == code.OpMatches || op == code.OpNotMatches) && err == nil ==> pushed1(vm) && isBool(top(vm)) && ptr(top(vm)) != 0
 //@   ensures @C01 sr.badop: op != code.OpMatches && op != code.OpNotMatches ==> err != nil && stackSame(vm)
+//@   ensures sr.effect: (err == nil ==> pushed1(vm)) && (err != nil ==> stackSame(vm))
 //@   panics maybe
 
 //@ func (vm *VM) executeIndexExpression(left object.Object, index object.Object) (err error)
@@ -228,18 +236,76 @@ package vm
 //@ func (vm *VM) Run(obj interface{}) (result object.Object, err error)
 //@   requires vmOK(vm) && vm.context != nil && vm.environment.global != nil && scopesOK(vm.environment)
 //@   ensures run.same: vm.environment == old(vm.environment) && vm.constants === old(vm.constants) && vm.functions == old(vm.functions) && vm.context == old(vm.context)
+//@   ensures run.env: (err == nil ==> vm.fields != nil && fresh(vm.fields)) && vm.environment.global != nil && scopesOK(vm.environment)
 //@   ensures run.result: err == nil ==> validObj(result)
 //@   panics maybe
-//@ loop 1 invariant run.inv: 0 <= ip && ln == len(vm.bytecode) && vmOK(vm) && vm.context != nil && vm.environment.global != nil && vm.fields != nil
+//@ loop 1 invariant run.inv.ip: 0 <= ip
+//@ loop 1 invariant run.inv.ln: ln == len(vm.bytecode)
+//@ loop 1 invariant run.inv.ok: vmOK(vm) && vm.context != nil
+//@ loop 1 invariant run.inv.global: vm.environment.global != nil
+//@ loop 1 invariant run.inv.fields: vm.fields != nil
 //@ loop 1 invariant run.inv.same: vm.stack == entry(vm.stack) && vm.environment == entry(vm.environment) && vm.constants === entry(vm.constants) && vm.bytecode === entry(vm.bytecode) && vm.functions == entry(vm.functions) && vm.context == entry(vm.context)
 //@ loop 1 invariant run.inv.scopes: scopesOK(vm.environment)
+// OpArray: elements[opArg..n) hold the values popped so far, in push order
+//@ loop 2 invariant arr.inv: 0 <= opArg && opArg <= len(elements) && vmOK(vm) && fresh(elements) && forall j in opArg..len(elements) :: validObj(elements[j])
+//@ loop 2 invariant arr.inv.stack: fresh(vm.stack.entries) && vm.stack == entry(vm.stack) && arr(elements) != arr(vm.stack.entries)
+//@ loop 2 invariant @C16 arr.inv.order: len(elements) == atloop(1, operand(vm, ip)) && depth(vm) == atloop(1, depth(vm)) - (len(elements) - opArg)
+//@            && (forall j in opArg..len(elements) :: elements[j] === atloop(1, S(vm)[depth(vm) - operand(vm, ip) + j]))
+//@            && (forall j in 0..depth(vm) :: S(vm)[j] === atloop(1, S(vm)[j]))
+//@ loop 2 decreases @C09 opArg
+//@ loop 3 invariant hash.inv: vmOK(vm) && fresh(vm.stack.entries) && vm.stack == entry(vm.stack) && hashedPairs != nil
+//@ loop 3 decreases @C09 opArg - i
+//@ loop 4 invariant call.inv: 0 <= opArg && opArg <= len(fnArgs) && vmOK(vm) && fresh(fnArgs) && fresh(vm.stack.entries) && vm.stack == entry(vm.stack) && arr(fnArgs) != arr(vm.stack.entries)
+//@ loop 4 decreases @C09 opArg
+// OpRange: elements[0..i) are the integers lo, lo+1, ...
+//@ loop 6 invariant range.inv.i: 0 <= i && i <= l && l == len(elements)
+//@ loop 6 invariant range.inv.fresh: fresh(elements)
+//@ loop 6 invariant range.inv.good: forall j in 0..i :: validObj(elements[j])
+//@ loop 6 invariant @C16 range.inv.values: forall j in 0..i :: isInt(elements[j]) && ival(elements[j]) == minI + j
+//@ loop 6 decreases @C09 l - i
+//@ loop 1 invariant run.inv.fieldsfresh: fresh(vm.fields)
+//@ loop 1 invariant run.inv.stackfresh: fresh(vm.stack.entries)
 //@ loop 1 step @C02 step.nop: (op == code.OpNop || op == code.OpPlaceholder) ==> ip == old(ip) + 1 && stackSame(vm)
 //@ loop 1 step @C01 @C15 step.push: op == code.OpPush ==> ip == old(ip) + 3 && pushed1(vm) && topInt(vm, opArg) && fresh(top(vm))
-//@ loop 1 step @C02 step.jump: op == code.OpJump ==> ip == opArg && stackSame(vm)
-//@ loop 1 step @C02 @C05 step.jif: op == code.OpJumpIfFalse ==> popped1(vm) && ip == (old(truthy(T1(vm))) ? old(ip) + 3 : opArg)
+//@ loop 1 step @C01 @C15 step.push.operand: op == code.OpPush ==> opArg == old(operand(vm, ip))
 //@ loop 1 step @C01 @C05 step.true: op == code.OpTrue ==> ip == old(ip) + 1 && pushed1(vm) && topBool(vm, true)
 //@ loop 1 step @C01 @C05 step.false: op == code.OpFalse ==> ip == old(ip) + 1 && pushed1(vm) && topBool(vm, false)
+//@ loop 1 step @C20 step.void: op == code.OpVoid ==> ip == old(ip) + 1 && pushed1(vm) && isVoid(top(vm))
+//@ loop 1 step @C01 @C15 @pinned step.constant: op == code.OpConstant ==> ip == old(ip) + 3 && pushed1(vm) && top(vm) === vm.constants[opArg] && opArg < len(vm.constants)
+//@ loop 1 exit @C18 exit.constant.bad: op == code.OpConstant && opArg >= len(vm.constants) ==> err != nil
+//@ loop 1 step @C02 step.jump: op == code.OpJump ==> ip == opArg && stackSame(vm) && opArg == old(operand(vm, ip))
+//@ loop 1 step @C02 @C05 step.jif: op == code.OpJumpIfFalse ==> popped1(vm) && ip == (old(truthy(T1(vm))) ? old(ip) + 3 : opArg) && opArg == old(operand(vm, ip))
+//@ loop 1 exit @C18 exit.jump.bad: op == code.OpJump && opArg >= len(vm.bytecode) ==> err != nil
 //@ loop 1 exit @C02 exit.return: op == code.OpReturn && old(depth(vm)) >= 1 ==> err == nil && result === T1(vm)
+//@ loop 1 exit @C18 exit.return.underflow: op == code.OpReturn && old(depth(vm)) == 0 ==> err != nil
+// variables
+//@ loop 1 step @C04 @C06 step.lookup.local: op == code.OpLookup && isStr(vm.constants[opArg]) && old(scopeIdx(vm, trimDollar(cname(vm, opArg)))) >= 0
+//@            ==> ip == old(ip) + 3 && pushed1(vm) && top(vm) === old(locals(vm)[scopeIdx(vm, trimDollar(cname(vm, opArg)))][trimDollar(cname(vm, opArg))])
+//@ loop 1 step @C04 @C06 step.lookup.global: op == code.OpLookup && isStr(vm.constants[opArg]) && old(scopeIdx(vm, trimDollar(cname(vm, opArg)))) < 0 && old(has(globals(vm), trimDollar(cname(vm, opArg))))
+//@            ==> ip == old(ip) + 3 && pushed1(vm) && top(vm) === old(globals(vm)[trimDollar(cname(vm, opArg))])
+//@ loop 1 step @C04 step.lookup.field: op == code.OpLookup && isStr(vm.constants[opArg]) && old(scopeIdx(vm, trimDollar(cname(vm, opArg)))) < 0 && !old(has(globals(vm), trimDollar(cname(vm, opArg))))
+//@            ==> ip == old(ip) + 3 && pushed1(vm) && (has(vm.fields, trimDollar(cname(vm, opArg))) ? top(vm) === vm.fields[trimDollar(cname(vm, opArg))] : isNull(top(vm)))
+//@ loop 1 step @C06 @C15 step.set.local: op == code.OpSet && old(depth(vm)) >= 2 && isStr(T1(vm)) && old(scopeIdx(vm, sval(T1(vm)))) >= 0
+//@            ==> ip == old(ip) + 1 && popped2(vm) && mapUpdated(locals(vm)[old(scopeIdx(vm, sval(T1(vm))))], old(sval(T1(vm))), T2(vm)) && mapUnchanged(globals(vm)) && otherScopesSame(vm, old(scopeIdx(vm, sval(T1(vm)))))
+//@ loop 1 step @C06 @C15 step.set.global: op == code.OpSet && old(depth(vm)) >= 2 && isStr(T1(vm)) && old(scopeIdx(vm, sval(T1(vm)))) < 0
+//@            ==> ip == old(ip) + 1 && popped2(vm) && mapUpdated(globals(vm), old(sval(T1(vm))), T2(vm)) && allScopesSame(vm)
+//@ loop 1 step @C06 step.local.declare: op == code.OpLocal && old(depth(vm)) >= 1 && isStr(T1(vm)) && len(locals(vm)) > 0
+//@            ==> ip == old(ip) + 1 && popped1(vm) && mapUpdated(locals(vm)[len(locals(vm)) - 1], old(sval(T1(vm))), toiface(Null)) && otherScopesSame(vm, len(locals(vm)) - 1) && mapUnchanged(globals(vm))
+// containers
+//@ loop 1 step @C16 step.array: op == code.OpArray && old(operand(vm, ip)) <= old(depth(vm))
+//@            ==> ip == old(ip) + 3 && depth(vm) == old(depth(vm)) - old(operand(vm, ip)) + 1 && keptBelow(vm, old(operand(vm, ip))) && isArray(top(vm)) && fresh(top(vm))
+//@            && len(elems(top(vm))) == old(operand(vm, ip)) && forall j in 0..old(operand(vm, ip)) :: elems(top(vm))[j] === old(S(vm)[depth(vm) - operand(vm, ip) + j])
+//@ loop 1 step @C16 @C01 step.range: op == code.OpRange && old(depth(vm)) >= 2 && isInt(T2(vm)) && isInt(T1(vm)) && old(ival(T2(vm))) <= old(ival(T1(vm))) && old(ival(T1(vm))) - old(ival(T2(vm))) < 4294967296
+//@            ==> ip == old(ip) + 1 && replaced2(vm) && isArray(top(vm)) && fresh(top(vm)) && len(elems(top(vm))) == old(ival(T1(vm))) - old(ival(T2(vm))) + 1
+//@            && forall j in 0..len(elems(top(vm))) :: isInt(elems(top(vm))[j]) && ival(elems(top(vm))[j]) == old(ival(T2(vm))) + j
+//@ loop 1 exit @C16 @C01 exit.range.bad: op == code.OpRange && old(depth(vm)) >= 2 && (!isInt(T2(vm)) || !isInt(T1(vm)) || old(ival(T2(vm))) > old(ival(T1(vm)))) ==> err != nil
+// operators: the arm delegates to the operator functions
+//@ loop 1 step @C01 step.binop.ip: isBinop(op) ==> ip == old(ip) + 1
+//@ loop 1 inherit vm.(*VM).executeBinaryOperation when isBinop(op)
+//@ loop 1 step @C01 step.unop.ip: (op == code.OpBang || op == code.OpMinus || op == code.OpSquareRoot) ==> ip == old(ip) + 1
+//@ loop 1 inherit vm.(*VM).executeBangOperator when op == code.OpBang
+//@ loop 1 inherit vm.(*VM).executeMinusOperator when op == code.OpMinus
+//@ loop 1 inherit vm.(*VM).executeSquareRoot when op == code.OpSquareRoot
 
 //@ func (vm *VM) lookup(obj interface{}, name string) (result object.Object)
 //@   requires vmOK(vm) && vm.fields != nil
@@ -282,3 +348,4 @@ package vm
 //@   modifies nothing
 //@   ensures @C04 createarray.type: isArray(result) && ptr(result) != 0
 //@   panics maybe
+//@ loop 1 invariant createarray.good: forall j in 0..len(el) :: validObj(el[j])
